@@ -2,7 +2,7 @@
 (* C05, running-scan clause: a scan that runs while other clients write stays strictly ascending and duplicate-free and
    contains every key that existed before it started and is not written during it.  The harness records one scan of the
    real engine stepped between foreign writes, flushes and compactions; keys are numbered by position, `stable` keys are
-   never touched after the scan has started.  Events: reset(n, stable), wrote(pos), flush, compact, yield(pos, ok), end. *)
+   never touched after the scan has started.  Events: reset(n, stable), wrote(pos), flush, compact, seek(pos), yield(pos, ok), end. *)
 EXTENDS Integers, Sequences, FiniteSets, Json, TLC
 
 VARIABLES l, last, seen, stable, nkeys
@@ -25,10 +25,17 @@ Yield == /\ Ev("yield")
          /\ last' = Trace[l].pos
          /\ seen' = IF Trace[l].pos \in stable THEN seen \cup {Trace[l].pos} ELSE seen
          /\ UNCHANGED <<stable, nkeys>>
+\* the scan is repositioned by Seek(key(t)), t beyond everything yielded so far: it continues on the smallest key >= t; the stable
+\* keys below t are skipped on purpose
+SeekTo == /\ Ev("seek")
+          /\ Trace[l].pos >= last
+          /\ last' = Trace[l].pos - 1
+          /\ seen' = seen \cup {p \in stable : p < Trace[l].pos}
+          /\ UNCHANGED <<stable, nkeys>>
 \* the scan is exhausted: every stable key has been seen
 EndScan == Ev("end") /\ seen = stable /\ UNCHANGED <<last, seen, stable, nkeys>>
 
-Next == Reset \/ Wrote \/ Maint \/ Yield \/ EndScan
+Next == Reset \/ Wrote \/ Maint \/ Yield \/ SeekTo \/ EndScan
 Spec == Init /\ [][Next]_vars
 HighWater == IF l > TLCGet(1) THEN TLCSet(1, l) ELSE TRUE
 Accepted == PrintT(<<"HIGHWATER", TLCGet(1)>>) /\ TLCGet(1) = Len(Trace) + 1
